@@ -113,3 +113,40 @@ func (o *Once) Do(f func()) {
 		f()
 	}
 }
+
+// Cond: Wait releases the lock and blocks until Signal/Broadcast; under the controlled scheduler the
+// blocked thread is disabled until it has been woken (earliest waiter first, like the runtime).
+type Cond struct {
+	L    Locker
+	st   vcoop.CondState
+	real *realsync.Cond
+}
+
+func NewCond(l Locker) *Cond { return &Cond{L: l, real: realsync.NewCond(l)} }
+
+func (c *Cond) Wait() {
+	if vcoop.Active() == nil {
+		c.real.Wait()
+		return
+	}
+	vcoop.CondEnlist(&c.st)
+	c.L.Unlock()
+	vcoop.CondBlock(&c.st)
+	c.L.Lock()
+}
+
+func (c *Cond) Signal() {
+	if vcoop.Active() == nil {
+		c.real.Signal()
+		return
+	}
+	vcoop.CondWake(&c.st, false)
+}
+
+func (c *Cond) Broadcast() {
+	if vcoop.Active() == nil {
+		c.real.Broadcast()
+		return
+	}
+	vcoop.CondWake(&c.st, true)
+}
